@@ -28,3 +28,41 @@ pub fn subst_rule() {
     assert!(same::<DeserType<'static, ZU<3>>, &'static ZU<3>>(), "[C05/subst.zero] the eps-copy type of a zero-copy type is a reference to it");
     assert!(same::<DeserType<'static, Vec<Z8>>, &'static [Z8]>(), "[C05/subst.zero.seq] sequences of zero-copy structures become borrowed slices");
 }
+
+/// zero-copy enum whose C tag is wider than its fields: both modes, at a start
+/// offset that is not a multiple of its native alignment
+// @h rt_ze_1 props=C05,C01,C02 tier=quick kind=complete vars="v:ZE (repr(C) zero-copy enum), pos0=1" fns="derive:ZE,ser/helpers.rs:serialize_zero,deser/helpers.rs:deserialize_eps_zero,deser/helpers.rs:deserialize_full_zero"
+#[kani::proof]
+#[kani::unwind(6)]
+pub fn rt_ze_1() {
+    use crate::lemmas::*;
+    use crate::sinks::*;
+    use epserde::deser::{DeserializeInner, ReaderWithPos, ReadNoStd, SliceWithPos};
+    let k: u8 = kani::any();
+    let v = match k {
+        0 => ZE::A,
+        1 => ZE::B(kani::any()),
+        _ => ZE::C { x: kani::any(), y: kani::any() },
+    };
+    let mut sink = ArrSink::<32>::new();
+    let (r, _) = ser_at(&v, 1, &mut sink);
+    assert!(r.is_ok(), "[C01/ser.ok] serialization into an infallible sink succeeds");
+    let n = sink.len;
+    let mut s = SliceWithPos { data: &sink.buf[1..n], pos: 1 };
+    match <ZE>::_deserialize_eps_inner(&mut s) {
+        Ok(d) => {
+            assert!(*d == v, "[C05/rt.eps] the derived zero-copy enum round-trips in eps mode");
+            assert!(d as *const ZE as usize % core::mem::align_of::<ZE>() == 0, "[C05/rt.eps.aligned] the eps-copy reference is aligned for the type");
+            assert!(s.pos == n, "[C05/rt.eps.consumed] eps-copy consumes exactly the bytes written");
+        }
+        Err(e) => { core::mem::forget(e); assert!(false, "[C05/rt.eps.ok] eps-copy of the derived zero-copy enum succeeds on an aligned buffer") }
+    };
+    let mut src: &[u8] = &sink.buf[..n];
+    let mut rd = ReaderWithPos::new(&mut src);
+    let mut one = [0u8; 1];
+    let _ = rd.read_exact(&mut one);
+    match <ZE>::_deserialize_full_inner(&mut rd) {
+        Ok(d) => assert!(d == v, "[C05/rt.full] the derived zero-copy enum round-trips in full-copy mode"),
+        Err(e) => { core::mem::forget(e); assert!(false, "[C05/rt.full.ok] full-copy of the derived zero-copy enum succeeds") }
+    };
+}
